@@ -344,7 +344,7 @@ def gen_trace(seed: int, tier: str) -> dict:
     maxdim = 6 if not thorough else 12
     events, sw = common.gen_history(
         seed, fault_rate=common.fault_arm(seed), n_events=n, families=["c14"], always=("c14",), ckpt=0.05, reopen=0.06, restart=0.03, observe=0.02,
-        jump=0.0, fork=0.0, warmup=False)
+        jump=0.0, fork=0.03, warmup=False)
     r2 = S("dims")
     pre = [{"op": "add_slide", "layout": 6, "dt": 1.0}]
     for _ in range(r2.choice([1, 1, 2])):
